@@ -110,7 +110,19 @@ func genPrec(t *rapid.T) PrecCase {
 			for k, q := 0, rapid.IntRange(1, 3).Draw(t, fmt.Sprintf("r%d_c%d_nrates", i, j)); k < q; k++ {
 				label := fmt.Sprintf("r%d_c%d_k%d", i, j, k)
 				units := rapid.IntRange(-99999, 9999999).Draw(t, label+"_base")
-				rt := PrecRate{Base: ratref.NewDec(int64(units), e).String()}
+				// written with the currency's decimals, with fewer (whole numbers, one
+				// decimal) or with more: the summary is presented at the currency's
+				// precision and its amounts are worked out from the presented bases
+				be := e
+				switch rapid.IntRange(0, 5).Draw(t, label+"_bexp") {
+				case 0:
+					be = 0
+				case 1:
+					be = rapid.IntRange(0, e+2).Draw(t, label+"_bexpv")
+				case 2:
+					be = e + rapid.IntRange(1, 2).Draw(t, label+"_bfine")
+				}
+				rt := PrecRate{Base: ratref.NewDec(int64(units), be).String()}
 				if rapid.IntRange(0, 5).Draw(t, label+"_exempt") > 0 {
 					rt.Percent = rapid.SampledFrom([]string{"21%", "10%", "4%", "19.5%", "7.75%", "0%", "15%", "33.33%"}).Draw(t, label+"_pct")
 					if rapid.IntRange(0, 3).Draw(t, label+"_sur") == 0 {
